@@ -523,7 +523,14 @@ func stackRun(w *World, raceOnly bool) {
 		}
 		for i := 0; i < nops; i++ {
 			task.Yield("rpc")
-			switch t.Choose(5) {
+			switch t.Choose(6) {
+			case 5: // let some time pass: servers with timer-driven behaviour (fades) get to take steps between the RPCs
+				task.Sleep([]time.Duration{30 * time.Millisecond, 70 * time.Millisecond, 150 * time.Millisecond, time.Second}[t.Choose(4)])
+				task.Settle("after-pause")
+				if c, err := doGet(nil, false); err == nil {
+					cur = c
+				}
+				w.Fault("pause")
 			case 0: // Get with a read mask
 				k := 1 + p.n(len(topFields))
 				var mask []string
